@@ -111,8 +111,13 @@ def compute_map(units):
                             out.add(head + "::" + seg_map.get(seg, seg))
                         return out
                     a = normc(sm["callees"], m.rsplit("::", 1)[-1])
-                    b = normc(_expand(sn["callees"], n, now, rec), n.rsplit("::", 1)[-1])
+                    b = normc(sn["callees"], n.rsplit("::", 1)[-1])
                     j = (len(a & b) / float(len(a | b))) if (a | b) else 1.0
+                    # ... and modulo helpers extracted from the fn (an unrecorded callee replaced by what it calls); a callee that is itself a
+                    # renamed fn must not be expanded, so both readings are tried
+                    b2 = normc(_expand(sn["callees"], n, now, rec), n.rsplit("::", 1)[-1])
+                    j2 = (len(a & b2) / float(len(a | b2))) if (a | b2) else 1.0
+                    j = max(j, j2)
                     cands.append((j, n))
                 cands.sort(reverse=True)
                 if cands and cands[0][0] >= 0.7 and (len(cands) == 1 or cands[0][0] - cands[1][0] >= 0.2):
